@@ -10,6 +10,7 @@ import (
 	"sort"
 	"strconv"
 	"strings"
+	"sync"
 	"time"
 )
 
@@ -274,11 +275,14 @@ func cmdCheck(prop, tier string, rest []string) int {
 	}
 	// vacuity: the entry of every function (after its preconditions) must be reachable
 	var vacuous []string
+	type probeT struct {
+		ob  *Obligation
+		msg string
+	}
+	var probes []probeT
 	for _, fc := range fctxs {
-		probe := &Obligation{Name: fc.name + ":entry-reachable", fc: fc, Block: fc.blocks[0], Index: len(fc.blocks[0].Cmds), Cond: TrueT}
-		if e.Reachable(probe) == "unsat" {
-			vacuous = append(vacuous, fc.name+": preconditions are unsatisfiable")
-		}
+		probes = append(probes, probeT{&Obligation{Name: fc.name + ":entry-reachable", fc: fc, Block: fc.blocks[0], Index: len(fc.blocks[0].Cmds), Cond: TrueT},
+			fc.name + ": preconditions are unsatisfiable"})
 		for _, li := range fc.loopList {
 			if li.Spec == nil || len(li.Spec.Invariants) == 0 {
 				continue
@@ -287,9 +291,27 @@ func cmdCheck(prop, tier string, rest []string) int {
 			if pb == nil {
 				continue
 			}
-			probe := &Obligation{Name: fmt.Sprintf("%s:loop%d-reachable", fc.name, li.Ord), fc: fc, Block: pb, Index: len(pb.Cmds), Cond: TrueT}
-			if e.Reachable(probe) == "unsat" {
-				vacuous = append(vacuous, fmt.Sprintf("%s: loop %d invariant is unsatisfiable or the loop is unreachable", fc.name, li.Ord))
+			probes = append(probes, probeT{&Obligation{Name: fmt.Sprintf("%s:loop%d-reachable", fc.name, li.Ord), fc: fc, Block: pb, Index: len(pb.Cmds), Cond: TrueT},
+				fmt.Sprintf("%s: loop %d invariant is unsatisfiable or the loop is unreachable", fc.name, li.Ord)})
+		}
+	}
+	{
+		res := make([]string, len(probes))
+		var wg sync.WaitGroup
+		sem := make(chan struct{}, workers())
+		for i := range probes {
+			wg.Add(1)
+			go func(i int) {
+				defer wg.Done()
+				sem <- struct{}{}
+				defer func() { <-sem }()
+				res[i] = e.Reachable(probes[i].ob)
+			}(i)
+		}
+		wg.Wait()
+		for i, r := range res {
+			if r == "unsat" {
+				vacuous = append(vacuous, probes[i].msg)
 			}
 		}
 	}
